@@ -47,7 +47,7 @@ pub fn configs(prop: &str, thorough: bool) -> Vec<(Cfg, Option<usize>)> {
                     c.owners = if thorough { vec![0, 1] } else { vec![0] };
                     c.spenders = vec![1, 2];
                     c.minters = vec![3, 0];
-                    c.mint_to = vec![0, 2];
+                    c.mint_to = if thorough { vec![0, 2, 3] } else if *mn == "cap4" { vec![0, 3] } else { vec![0, 2] };
                     c.amounts = vec![0, 1, 2, 3];
                     c.mint_amounts = vec![0, 1, 2, 5];
                     c.grant_cap = Some(if thorough { 3 } else { 2 });
